@@ -143,6 +143,7 @@ type handler struct {
 	receiver       hwebsocket.Receiver
 	disconnectChan chan error
 	frameChan      chan struct{}
+	activityChan   chan struct{}
 }
 
 func (h *handler) Handle(ctx context.Context) {
@@ -178,6 +179,7 @@ func (h *handler) Handle(ctx context.Context) {
 	// updates a scheduler holds are put on its queue, which may be full, by a goroutine of the
 	// connection, never by the session's one while it holds the session frame lock.
 	h.frameChan = make(chan struct{}, 1)
+	h.activityChan = make(chan struct{}, 1)
 	wg.Add(1)
 	go func() {
 		defer wg.Done()
@@ -215,6 +217,11 @@ func (h *handler) Handle(ctx context.Context) {
 			if err := h.Handler.SendSyncClock(ctx, responder); err != nil {
 				h.disconnect(errors.New("sending sync clock failed").Wrap(err))
 			}
+
+		case <-h.activityChan:
+			// a message that was dropped on reception: the client is not idle
+			idleTimer.Stop()
+			idleTimer.Reset(idleTimeout)
 
 		case msg := <-h.consumer.Messages():
 			idleTimer.Stop()
@@ -355,6 +362,11 @@ func (h *handler) dispatch(ctx context.Context, msg hwebsocket.Msg) error {
 		// take the place of the update with a pose that waits for the frame.
 		var eup hagallpb.EntityUpdatePose
 		if err := msg.DataTo(&eup); err == nil && eup.Pose == nil {
+			// it still counts as a sign of life
+			select {
+			case h.activityChan <- struct{}{}:
+			default:
+			}
 			return nil
 		}
 	}
